@@ -134,7 +134,7 @@ fn parse_unit(path: &str, unit: &mut Unit) {
             };
             match kw {
                 "unit" => unit.name = arg.to_string(),
-                "rlimit" | "tier" | "desc" | "threads" => { unit.meta.insert(kw.to_string(), arg.to_string()); }
+                "rlimit" | "tier" | "desc" | "threads" | "closures" => { unit.meta.insert(kw.to_string(), arg.to_string()); }
                 "properties" => unit.properties.extend(arg.split_whitespace().map(String::from)),
                 "include" => {
                     if cur.is_some() {
@@ -931,6 +931,50 @@ impl<'a> Gen<'a> {
         out
     }
 
+    /// Closures: a closure that did not exist when the anchors were recorded has no contract (Verus knows nothing about what
+    /// an unannotated closure returns), so a refactoring such as `match` -> `.and_then(|v| ..)` makes the function's proof fail
+    /// for no semantic reason. The fingerprints of a function's closures are recorded with the anchors; a closure whose
+    /// fingerprint is not among them is NEW (rule `new-closure` in the log; the driver does not report failures of such a
+    /// function unless they persist in ANGELIC mode). Angelic mode (env VX_ANGELIC_NEW_CLOSURES=1): every new closure gets
+    /// `ensures false` - whatever depends on what it returns becomes vacuous, so an obligation that still fails does not
+    /// depend on the new closure at all (the closure's own "unable to prove post-condition of closure" is ignored by the driver).
+    fn closures_check(&mut self, scan: &Scan, fname: &str, at: usize) {
+        let cls: Vec<Node> = scan.nodes.iter().filter(|n| n.kind == "closure").cloned().collect();
+        let fps: Vec<String> = cls.iter().map(|n| fingerprint(scan, n)).collect();
+        let ckey = format!("{}|{}|closures", self.key_prefix, fname);
+        if let Some((old, old_n, ..)) = self.recorded.get(&ckey).cloned() {
+            let mut pool: Vec<&str> = if old.is_empty() { vec![] } else { old.split(';').collect() };
+            let mut fresh: Vec<Node> = vec![];
+            for (n, fp) in cls.iter().zip(fps.iter()) {
+                match pool.iter().position(|o| *o == fp.as_str()) {
+                    Some(i) => { pool.remove(i); }
+                    None => fresh.push(n.clone()),
+                }
+            }
+            // only an INCREASE in the number of closures counts: a closure edited in place keeps its contract's obligations
+            if cls.len() > old_n && !fresh.is_empty() {
+                let line = self.line_of(at);
+                self.log.push(json!({"rule": "new-closure", "file": self.repo_file, "line": line, "old": fname.to_string(), "note": format!("fn {fname}: {} closure(s) now, {} when the anchors were recorded; a new closure has no contract", cls.len(), old_n)}));
+                if std::env::var("VX_ANGELIC_NEW_CLOSURES").map(|v| v == "1").unwrap_or(false) {
+                    // the (cls.len() - old_n) last unmatched closures in source order are taken as the new ones
+                    let k = (cls.len() - old_n).min(fresh.len());
+                    for n in fresh.iter().rev().take(k) {
+                        let o = self.gen("angelic-closure");
+                        self.ins(n.header_end.unwrap(), " ensures false ".into(), o.clone(), "angelic");
+                        if n.block.is_none() {
+                            let b = n.body.clone().unwrap();
+                            self.ins(b.start, "{ ".into(), o.clone(), "angelic");
+                            self.ins(b.end, " }".into(), o, "angelic");
+                        }
+                        let r = n.range.clone();
+                        self.rule_log("angelic-closure", &r, "new closure given `ensures false` (second opinion only)");
+                    }
+                }
+            }
+        }
+        self.observed.insert(ckey, (fps.join(";"), cls.len(), 0, 0, 0));
+    }
+
     fn line_of(&self, byte: usize) -> usize {
         self.src[..byte].bytes().filter(|b| *b == b'\n').count() + 1
     }
@@ -1031,28 +1075,6 @@ impl<'a> Gen<'a> {
         let fname = sig.ident.to_string();
         let ctx = format!("{} fn {}", self.ctx, fname);
         self.in_sub = sub.is_some();
-        // closures: a closure that did not exist when the anchors were recorded has no contract (Verus knows nothing about
-        // what an unannotated closure returns), so a refactoring such as `match` -> `.and_then(|v| ..)` makes the
-        // function's proof fail for no semantic reason; the driver downgrades failures of such a function to UNDECIDED
-        if let Some(bl) = block {
-            struct CC(usize);
-            impl<'ast> Visit<'ast> for CC {
-                fn visit_expr_closure(&mut self, c: &'ast syn::ExprClosure) {
-                    self.0 += 1;
-                    syn::visit::visit_expr_closure(self, c);
-                }
-            }
-            let mut cc = CC(0);
-            cc.visit_block(bl);
-            let ckey = format!("{}|{}|closures", self.key_prefix, fname);
-            if let Some((_, old_n, ..)) = self.recorded.get(&ckey).cloned() {
-                if cc.0 > old_n {
-                    let line = self.line_of(br(sig.span()).start);
-                    self.log.push(json!({"rule": "new-closure", "file": self.repo_file, "line": line, "old": fname.clone(), "note": format!("fn {fname}: {} closure(s) now, {} when the anchors were recorded; a new closure has no contract", cc.0, old_n)}));
-                }
-            }
-            self.observed.insert(ckey, (String::new(), cc.0, 0, 0, 0));
-        }
         let renamed_spec = spec.map(|s| self.rename_locals(sig, block, s, &fname));
         let spec = renamed_spec.as_ref();
         if sub.is_some() {
@@ -1064,6 +1086,7 @@ impl<'a> Gen<'a> {
             scan.nodes.push(Node { kind: "end", name: String::new(), range: blk.end - 1..blk.end - 1, stmt: blk.end - 1..blk.end - 1, block: Some(blk.clone()), header_end: None, body: None, aux: None });
             let empty = FnSpec::default();
             let spec = spec.unwrap_or(&empty);
+            self.closures_check(&scan, &fname, br(sig.span()).start);
             self.body_rules(block, &scan, spec);
             self.body_sections(&scan, spec, &ctx);
             let sub = sub.unwrap();
@@ -1185,6 +1208,7 @@ impl<'a> Gen<'a> {
             }
         }
         // generic body rewrites
+        self.closures_check(&scan, &fname, br(sig.span()).start);
         self.body_rules(block, &scan, spec);
         self.body_sections(&scan, spec, &ctx);
         None
